@@ -5,16 +5,18 @@
 //
 //   - a real FSTree blobstor (depth 2, no combined files: CombinedCountLimit(1), so every object is
 //     one file and the on-disk layout is a pure function of the stored set), optionally wrapped by a
-//     harness common.Storage (Config.WrapStorage; see FaultyStorage);
+//     harness common.Storage (Config.WrapStorage; FaultyStorage in faulty.go injects one-shot
+//     Open/Init/Close/Put failures);
 //   - a real metabase (bbolt NoSync, MaxBatchSize 1 => Batch runs synchronously in the caller,
-//     optional OpenFile hook for open-failure injection);
+//     optional OpenFile hook Config.MetaOpenFile for open-failure injection);
 //   - optionally the real write-cache (1 flush worker, tiny batch limits);
 //   - a fixed shard ID (the FSTree descriptor is written before Init), fixed object IDs (ids.go);
 //   - a harness-owned epoch (Epoch) and container-payments stub (Payments);
 //   - the GC timer disabled (24 h); GC passes and the new-epoch handler are invoked synchronously
-//     through World.GCPass / World.NewEpoch (injected export file inject/shard/shardworld_verif.go);
-//   - the write-cache flush ticker virtual (never fires by itself; World.Tick fires it and waits for
-//     the flush workers to become idle) when the check's overlay.spec rewires flush.go's "time".
+//     through World.GCPass / World.NewEpoch / World.HandleEpochEvent (injected export file
+//     inject/shard/shardworld_verif.go: thin wrappers around the functions the goroutines run);
+//   - the write-cache flush ticker virtual (vtime/: never fires by itself; World.Tick fires it and
+//     waits for the flush worker to become idle) when the check's overlay.spec rewires flush.go's "time".
 //
 // Required overlay.spec lines for a check that uses this package:
 //
@@ -22,8 +24,18 @@
 //	inject pkg/local_object_storage/writecache inject/writecache/shardworld_verif.go
 //	import pkg/local_object_storage/writecache/flush.go time=github.com/nspcc-dev/neofs-node/verif/worlds/shardworld/vtime
 //
+// Files: world.go (Config/Open/World), ids.go (deterministic IDs and objects), snapshot.go
+// (SnapTree / SnapState / BoltDump / CopyTree: byte-level and logical pictures of a shard directory),
+// content.go (RawObjects: read the FSTrees directly; World.ResetEmpty), faulty.go (FaultyStorage),
+// vtime/ (virtual ticker), procpool/ (run jobs in child processes: bbolt open/close does not scale
+// across goroutines of one process).
+//
 // Directory layout under Config.Dir:  blob/ (FSTree)  meta/meta.db (bbolt)  wc/ (write-cache).
-// Snapshot helpers live in snapshot.go.
+//
+// Caveats learnt the hard way: (1) the raw bytes of meta.db are NOT reproducible between two
+// instances that executed the same read-write history (bbolt page layout varies), compare raw bytes
+// only within one instance and use BoltDump / State.LogicalHash across instances; (2) ev.Run.Finish
+// calls os.Exit, so remove scratch directories explicitly before it.
 package shardworld
 
 import (
@@ -211,7 +223,7 @@ func ShardOptions(cfg Config) ([]shard.Option, Config, *fstree.FSTree, error) {
 			writecache.WithMaxFlushBatchCount(2),
 			writecache.WithMaxFlushBatchSize(128),
 		),
-		shard.WithGCRemoverSleepInterval(24*time.Hour),
+		shard.WithGCRemoverSleepInterval(24 * time.Hour),
 		shard.WithContainerPayments(cfg.Payments),
 	}
 	if cfg.RemoverBatch > 0 {
@@ -272,7 +284,7 @@ func (w *World) Init() error {
 	}
 	// The flush scheduler goroutine creates its ticker right after it starts. Wait for that
 	// definite event (bounded, in case flush.go's "time" import is not rewired in this build).
-	for i := 0; vtime.Pending() == 0 && i < 20000; i++ {
+	for i := 0; vtime.Pending() == 0 && i < 300000; i++ { // <= ~30 s on a badly overloaded box
 		if i < 100 {
 			runtime.Gosched()
 		} else {
